@@ -199,27 +199,22 @@ func c18CASWon(info *types.Info, e ast.Expr) bool {
 	return a0 == "false" && a1 == "true"
 }
 
-// c18Conjuncts flattens A && B && C.
-func c18Conjuncts(e ast.Expr) []ast.Expr {
-	if b, ok := ast.Unparen(e).(*ast.BinaryExpr); ok && b.Op == token.LAND {
-		return append(c18Conjuncts(b.X), c18Conjuncts(b.Y)...)
-	}
-	return []ast.Expr{ast.Unparen(e)}
-}
-
-// c18GuardedByEmptyConjunct: call is evaluated as a right operand of `len(c.subs)==0 && … call …`
+// c18GuardedByEmptyConjunct: call is evaluated as a right operand of `len(c.subs)==0 && … call …` (or `len(c.subs)!=0 || … call …`)
 // (short-circuit domination inside one expression, which the path engine does not split).
 func c18GuardedByEmptyConjunct(fi *fw.FuncInfo, call *ast.CallExpr) bool {
 	info := fi.Info()
 	found := false
 	fw.WalkAll(fi.Decl.Body, func(n ast.Node) bool {
 		b, ok := n.(*ast.BinaryExpr)
-		if !ok || b.Op != token.LAND || call.Pos() < b.Y.Pos() || call.End() > b.Y.End() {
+		if !ok || (b.Op != token.LAND && b.Op != token.LOR) || call.Pos() < b.Y.Pos() || call.End() > b.Y.End() {
 			return true
 		}
-		for _, cj := range c18Conjuncts(b.X) {
-			if a := fw.Atom(info, cj, true); a.Kind == "Empty" && fw.IsFieldSel(info, a.X, c18T, "wsConnection", "subs") {
-				found = true
+		// the right operand is evaluated only when the left one was true (&&) / false (||)
+		if op, leaves := fw.NNF(info, b.X, b.Op == token.LAND); op == "atom" || op == "and" {
+			for _, a := range leaves {
+				if a.Kind == "Empty" && fw.IsFieldSel(info, a.X, c18T, "wsConnection", "subs") {
+					found = true
+				}
 			}
 		}
 		return true
@@ -342,13 +337,17 @@ func c18LockAnalysis(r *fw.Run) *fw.LockAnalysis {
 			if v, isC := fw.ConstVal(in.Info, as.Rhs[i]); isC && v == "false" {
 				st.Set("cas:var:" + id.Name) // "v ⇒ CAS won" holds vacuously
 			}
-			for _, cj := range c18Conjuncts(as.Rhs[i]) {
-				if c18CASWon(in.Info, cj) {
-					st.Set("cas:var:" + id.Name) // v := … && closed.CompareAndSwap(false,true): v implies the CAS was won
+			// v := … && closed.CompareAndSwap(false,true) (in any spelling: the negation normal form of "v is true" is
+			// a conjunction): v implies the CAS was won / implies that subs was seen empty
+			if op, leaves := fw.NNF(in.Info, as.Rhs[i], true); op == "atom" || op == "and" {
+				for _, a := range leaves {
+					if a.Kind == "True" && c18CASWon(in.Info, a.X) {
+						st.Set("cas:var:" + id.Name)
+					}
+					if a.Kind == "Empty" && fw.IsFieldSel(in.Info, a.X, c18T, "wsConnection", "subs") && fw.Held(st, lkSubs, true) {
+						st.Set(emptyVar(id.Name))
+					}
 				}
-			}
-			if a := fw.Atom(in.Info, as.Rhs[i], true); a.Kind == "Empty" && fw.IsFieldSel(in.Info, a.X, c18T, "wsConnection", "subs") && fw.Held(st, lkSubs, true) {
-				st.Set(emptyVar(id.Name))
 			}
 		}
 	}
